@@ -99,14 +99,17 @@ Definition getTransitionProbabilityP (g : ddnGraph) (T : list matrix) (sk sv ak 
 (* src: FactoredMatrix.hpp:struct BasisMatrix {tag, actionTag, values} *)
 Record bm := mkBm { bmTag : list nat; bmActionTag : list nat; bmVals : matrix }.
 
+(* "for (auto d : rhs.tag) { actionTag = merge(actionTag, parentSets[d].agents);
+                            for (n : parentSets[d].features) tag = merge(tag, n); }" *)
+Definition bp_step (g : ddnGraph) (p : list nat * list nat) (d : nat) : list nat * list nat :=
+  let '(atag, stag) := p in
+  let ps := nth d (gParents g) emptyPS in
+  (merge_keys atag (psAgents ps), fold_left merge_keys (psFeatures ps) stag).
+
 (* src: BayesianNetwork.cpp:backProject(const DDN &, const BasisFunction &)
    ([Qred] only normalises the fraction of each computed entry: Qred q == q) *)
 Definition backProject (g : ddnGraph) (T : list matrix) (rhs : bf) : bm :=
-  let '(atag, stag) :=
-    fold_left (fun '(atag, stag) d =>
-                 let ps := nth d (gParents g) emptyPS in
-                 (merge_keys atag (psAgents ps), fold_left merge_keys (psFeatures ps) stag))
-              (bfTag rhs) ([], []) in
+  let '(atag, stag) := fold_left (bp_step g) (bfTag rhs) ([], []) in
   let sDomain := enum_assignments (gS g) stag in
   let aDomain := enum_assignments (gA g) atag in
   let rDomain := enum_assignments (gS g) (bfTag rhs) in
